@@ -96,28 +96,24 @@ Theorem C04_connection_window : forall cfg ops s L, fin cfg ops = Some (s, L) ->
 Proof. exact conn_window. Qed.
 Print Assumptions C04_connection_window.
 
-(* All theorems above assume ([opk_ok], ONew) that a BDP estimate is above the configured stream
-   window and strictly above the configured connection window.  The estimator however starts from
-   65535 whatever InitialWindowSize / InitialConnWindowSize say (dynamic window stays on), and
-   without that hypothesis ([finp]) two more sentences fail:
-   clause 9 - a connection WINDOW_UPDATE with increment uint32(n - limit) = 4294049790 (or 0 when
-   n = limit) is emitted; the framer refuses it and the connection is torn down; *)
-Theorem C04_conn_increment_refuted :
-  exists cfg ops s L, finp cfg ops = Some (s, L) /\ cdead L = true /\
-    run cfg ops = Some [[4294049790; 1; 131070; 131070; 0; 0; 0; 131070; 0]].
-Proof. exact conn_increment_refuted. Qed.
-Print Assumptions C04_conn_increment_refuted.
+(* BDP updates (updateFlowControl(n), any 1 <= n <= 16 MiB, in any state, whatever windows were
+   configured - no hypothesis relating n to the configured windows): a connection-level
+   WINDOW_UPDATE is emitted only with an increment in [1, 2^31-1] (clause 9), and no window is ever
+   lowered - SETTINGS_INITIAL_WINDOW_SIZE is sent only to raise the stream windows (so the states
+   of clause 10 do not exist).  Before fix 7a3f54f both failed (increment uint32(n - limit) =
+   4294049790 for limit 1 MiB, n 131070; stream stall after a SETTINGS decrease). *)
+Theorem C04_bdp_update_legal : forall cfg ops s L n o s',
+  fin cfg ops = Some (s, L) -> opk_ok L (ONew n) = true -> stepk s (ONew n) = (o, s') ->
+  exists cwu items sv rest, o = cwu :: items :: sv :: rest /\
+    ((items = 0 /\ cwu = 0 /\ climit s' = climit s) \/
+     (items = 1 /\ 1 <= cwu <= 2147483647 /\ climit s' = climit s + cwu)) /\
+    ((sv = 0 /\ limit s' = limit s /\ iws s' = iws s) \/
+     (sv = n /\ iws s < n /\ iws s' = n /\ limit s <= limit s')).
+Proof. exact new_limit_legal. Qed.
+Print Assumptions C04_bdp_update_legal.
 
-(* clause 10 - lowering the stream window below pendingUpdate leaves the peer with a negative
-   window while the application has nothing to read and is waiting: a permanent stall. *)
-Theorem C04_shrink_stall_refuted :
-  exists cfg ops s L, finp cfg ops = Some (s, L) /\ ldead L = false /\ sshrunk L = true /\
-    deliv L = readb L /\ want L = 5 /\ win L = -68925.
-Proof. exact shrink_stall_refuted. Qed.
-Print Assumptions C04_shrink_stall_refuted.
-
-(* The executable predicate that is evaluated on implementation traces (clauses 1-4, 7, 8;
-   5, 6, 9, 10 are the refuted sentences above) holds on every trace of the model, for every
+(* The executable predicate that is evaluated on implementation traces (clauses 1-4, 7-10;
+   5 and 6 are the refuted sentences above) holds on every trace of the model, for every
    well-formed operation list; and well-formed lists are exactly those [fin] is defined on. *)
 Theorem C04_holds_on_every_model_trace : forall cfg ops, wf cfg ops = true ->
   exists obs, run cfg ops = Some obs /\ holds_b cfg ops obs = true.
@@ -135,5 +131,8 @@ Example C04_witness :
      [[2; 100000]; [1; 16384; 0]; [1; 16384; 255]; [3; 16384]; [4; 131070]; [5];
       [3; 16129]; [1; 16777215; 0]; [5]] = true /\
   run [100; 100] [[1; 100; 10]; [1; 1; 0]] =
-    Some [[100; 0; 0; 100; 90; 10; 0; 100; 0]; [0; 1; 0; 100; 91; 10; 0; 100; 1]].
-Proof. vm_compute. split; reflexivity. Qed.
+    Some [[100; 0; 0; 100; 90; 10; 0; 100; 0; 100]; [0; 1; 0; 100; 91; 10; 0; 100; 1; 100]] /\
+  (* the former defect witnesses: no connection update for 131070 <= 1 MiB; no SETTINGS decrease *)
+  run [65535; 1048576] [[4; 131070]] = Some [[0; 0; 131070; 131070; 0; 0; 0; 1048576; 0; 131070]] /\
+  run [1048576; 65535] [[4; 131070]] = Some [[65535; 1; 0; 1048576; 0; 0; 0; 131070; 0; 1048576]].
+Proof. vm_compute. repeat split; reflexivity. Qed.
